@@ -155,12 +155,31 @@ CaseOf(c) ==
       sidx == Len(P.files[1].structs)
       dv   == ev(P, main)
       nilable == Resolve(P, 1, pt.ct).k \in {"list", "set", "map", "struct", "binary"}
+      rt   == Resolve(P, 1, pt.ct)
+      \* in-place mutation below field o (only where the default is written as a literal: a default written as an identifier
+      \* IS another constant, about whose identity the statement says nothing)
+      mutable == /\ c.form # "p" /\ ~Has(pt.cv, "id")
+                 /\ \/ rt.k \in {"list", "set"} /\ Len(dv.l) > 0
+                    \/ rt.k = "map" /\ Len(dv.m) > 0
+                    \/ rt.k = "struct"
+      mut  == CASE rt.k \in {"list", "set"} -> [op |-> "mut", f |-> "o", k |-> "idx", v |-> Alt(P, rt.f, rt.t.v, dv.l[1])]
+                [] rt.k = "map" -> [op |-> "mut", f |-> "o", k |-> "key", key |-> dv.m[1][1], v |-> Alt(P, rt.f, rt.t.v, dv.m[1][2])]
+                [] rt.k = "struct" ->
+                     LET fl  == StructDef(P, rt).fields[1]
+                         cur == dv.s[fl.name] IN
+                     [op |-> "mut", f |-> "o", k |-> "fld", fld |-> fl.name,
+                      v |-> Alt(P, rt.f, fl.type, IF IsNil(cur) THEN ZeroElem(P, rt.f, fl.type) ELSE cur)]
       tr   == <<Step("new"), Step("obs"), Step("zero"), Step("obs"), Step("init"), Step("obs"),
                 Step("new"), SetStep("o", dv), Step("obs"), SetStep("o", Alt(P, 1, pt.ct, dv)), Step("obs")>>
               \o (IF nilable THEN <<SetStep("o", NIL), Step("obs")>> ELSE <<>>)
-              \o (IF Full(c) THEN <<SetStep("on", Alt(P, 1, pt.ct, dv)), Step("obs")>> ELSE <<>>) IN
+              \o (IF Full(c) THEN <<SetStep("on", Alt(P, 1, pt.ct, dv)), Step("obs")>> ELSE <<>>)
+              \o (IF mutable THEN <<Step("zero"), Step("init"), mut, Step("obs"),      \* this object changes ...
+                                    Step("zero"), Step("init"), Step("obs"),           \* ... a second one has the IDL defaults,
+                                    Step("zero"), Step("obs"),                         \* so has the getter of an unset field,
+                                    Step("new"), mut, Step("obs"), Step("new"), Step("obs")>>   \* and the same through NewX()
+                  ELSE <<>>) IN
   [id |-> pt.id, si |-> c.si, form |-> c.form, j |-> c.j, q |-> c.q, way |-> pt.way, sig |-> Sig(t), depth |-> Depth(t),
-   probe |-> c.form = "p", defs |-> defs, newlit |-> NewObj(P, 1, sidx) = StructVal(P, 1, 1, sidx, <<>>),
+   probe |-> c.form = "p", mutable |-> mutable, defs |-> defs, newlit |-> NewObj(P, 1, sidx) = StructVal(P, 1, 1, sidx, <<>>),
    consts |-> [i \in 1..Len(cs) |-> [file |-> cs[i].file, name |-> cs[i].d.name, type |-> cs[i].d.type,
                                      exp |-> ev(P, cs[i]), expnd |-> ev(PN, cs[i])]],
    struct |-> [name |-> sd.name, trace |-> tr,
@@ -178,7 +197,7 @@ CtxConsts(f) ==
 CtxCase ==
   LET tr == <<Step("new"), Step("obs"), Step("zero"), Step("obs"), Step("init"), Step("obs")>> IN
   [id |-> "ctx", si |-> 0, form |-> "c", j |-> 1, q |-> 1, way |-> "context", sig |-> "context", depth |-> 0,
-   probe |-> FALSE, defs |-> <<>>, newlit |-> NewObj(Ctx, 1, 1) = StructVal(Ctx, 1, 1, 1, <<>>), consts |-> CtxConsts(1),
+   probe |-> FALSE, mutable |-> FALSE, defs |-> <<>>, newlit |-> NewObj(Ctx, 1, 1) = StructVal(Ctx, 1, 1, 1, <<>>), consts |-> CtxConsts(1),
    struct |-> [name |-> Ctx.files[1].structs[1].name, trace |-> tr, exp |-> Run(Ctx, 1, 1, NIL, tr, 1),
                expnd |-> Run(Ctx, 1, 1, NIL, tr, 1)]]
 
@@ -208,9 +227,17 @@ FreshGetters(cc) == cc.probe \/ LET e == cc.struct.exp IN
 \* the fourth observation holds the default in o (not "must be set"), the fifth a different value (must be set)
 SetDistinguishes(cc) == cc.probe \/ LET e == cc.struct.exp IN ~e[4].must["o"] /\ e[5].must["o"] /\ e[5].get["o"] = e[5].v.s["o"]
 
+\* in-place mutation changes the mutated object and nothing else: a second object and NewX() still have the IDL defaults
+IndependentDefaults(cc) ==
+  cc.mutable => LET e == cc.struct.exp
+                    n == Len(e) IN
+                /\ e[n - 4].v # e[3].v /\ e[n - 3].v = e[3].v /\ e[n - 3].get = e[3].get
+                /\ e[n - 2].get["o"] = e[3].v.s["o"]
+                /\ e[n - 1].v # e[1].v /\ e[n].v = e[1].v
+
 Inv == /\ c.k = "case" =>
             LET cc == CaseOf(c) IN
-            /\ EveryCaseDefined(cc) /\ NewIsInit(cc) /\ FreshGetters(cc) /\ SetDistinguishes(cc)
+            /\ EveryCaseDefined(cc) /\ NewIsInit(cc) /\ FreshGetters(cc) /\ SetDistinguishes(cc) /\ IndependentDefaults(cc)
             /\ PrintT("CASE " \o ToJson(cc))
        /\ c.k = "ctx" =>
             /\ EveryCaseDefined(CtxCase) /\ CtxCase.newlit /\ CtxCase.struct.exp[1].v = CtxCase.struct.exp[3].v
